@@ -348,17 +348,34 @@ def extraction(extract_v, timeout=1500):
 
 
 # ----------------------------------------------------------------------------- Rust harness
+def harness_dir():
+    """The harness crate links /repo by path.  For a different tree (VERIF_REPO=...) a shadow crate is generated."""
+    if REPO == "/repo":
+        return HARNESS, os.path.join(CACHE, "target")
+    tag = hashlib.sha256(REPO.encode()).hexdigest()[:10]
+    d = os.path.join(CACHE, "harness_alt", tag)
+    os.makedirs(d, exist_ok=True)
+    toml = open(os.path.join(HARNESS, "Cargo.toml")).read().replace('path = "/repo"', 'path = "%s"' % REPO)
+    with open(os.path.join(d, "Cargo.toml"), "w") as f:
+        f.write(toml)
+    for name in ("src", "build.rs"):
+        dst = os.path.join(d, name)
+        if not os.path.lexists(dst):
+            os.symlink(os.path.join(HARNESS, name), dst)
+    return d, os.path.join(CACHE, "target_alt_" + tag)
+
+
 def harness_build(profiles=("debug",), bins=None):
-    """Build the harness crate against /repo's CURRENT working tree (hooks on). Returns {profile: bindir}."""
-    tgt = os.path.join(CACHE, "target")
+    """Build the harness crate against the CURRENT working tree of /repo (hooks on). Returns {profile: bindir}."""
+    hd, tgt = harness_dir()
     res = {}
     with locked("cargo"):
         lock_src = os.path.join(REPO, "Cargo.lock")
-        lock_dst = os.path.join(HARNESS, "Cargo.lock")
+        lock_dst = os.path.join(hd, "Cargo.lock")
         if not os.path.exists(lock_dst):
             src = lock_src if os.path.exists(lock_src) else os.path.join(HARNESS, "Cargo.lock.seed")
             shutil.copy(src, lock_dst)
-        env = env_offline({"RUSTFLAGS": "--cfg " + GUARD, "CARGO_TARGET_DIR": tgt})
+        env = env_offline({"RUSTFLAGS": "--cfg " + GUARD, "CARGO_TARGET_DIR": tgt, "VERIF_REPO": REPO})
         for prof in profiles:
             cmd = ["cargo", "build", "--offline", "-q"]
             if prof == "release":
@@ -366,7 +383,7 @@ def harness_build(profiles=("debug",), bins=None):
             if bins:
                 for b in bins:
                     cmd += ["--bin", b]
-            rc, out = run(cmd, cwd=HARNESS, env=env, timeout=1800)
+            rc, out = run(cmd, cwd=hd, env=env, timeout=1800)
             if rc != 0:
                 raise RuntimeError("harness build failed (%s):\n%s" % (prof, out[-4000:]))
             res[prof] = os.path.join(tgt, prof)
@@ -375,7 +392,7 @@ def harness_build(profiles=("debug",), bins=None):
 
 def customasm_build(profiles=("debug",)):
     """Build the real customasm binary from /repo's current working tree (hooks on)."""
-    tgt = os.path.join(CACHE, "target_bin")
+    tgt = os.path.join(CACHE, "target_bin" if REPO == "/repo" else "target_bin_" + hashlib.sha256(REPO.encode()).hexdigest()[:10])
     res = {}
     with locked("cargo_bin"):
         env = env_offline({"RUSTFLAGS": "--cfg " + GUARD, "CARGO_TARGET_DIR": tgt})
